@@ -25,8 +25,20 @@ func forD(c *bx.Ctx, f func(v ref.V)) {
 	_ = stop
 }
 
+var markCtx *bx.Ctx
+
+// SetCtx tells the call wrappers where to record the call in flight.
+func SetCtx(c *bx.Ctx) { markCtx = c }
+
+func mark(entry string, in []byte) {
+	if markCtx != nil {
+		markCtx.Mark(entry, in)
+	}
+}
+
 // safeMarshal calls Marshal and converts a panic into an error-like result.
 func safeMarshal(p rtcp.Packet) (out []byte, err error, pan string) {
+	mark("Marshal:"+TypeName(p), nil)
 	msg, panicked := bx.Guard(func() { out, err = p.Marshal() })
 	if panicked {
 		return nil, nil, msg
@@ -37,6 +49,7 @@ func safeMarshal(p rtcp.Packet) (out []byte, err error, pan string) {
 func safeOwn(typ string, b []byte) (q rtcp.Packet, err error, pan string) {
 	e := EntryByName("own:" + typ)
 	q = e.New()
+	mark(e.Name, b)
 	msg, panicked := bx.Guard(func() { err = q.Unmarshal(b) })
 	if panicked {
 		return nil, nil, msg
@@ -45,6 +58,7 @@ func safeOwn(typ string, b []byte) (q rtcp.Packet, err error, pan string) {
 }
 
 func safeDgram(b []byte) (ps []rtcp.Packet, err error, pan string) {
+	mark("dgram", b)
 	msg, panicked := bx.Guard(func() { ps, err = rtcp.Unmarshal(b) })
 	if panicked {
 		return nil, nil, msg
